@@ -154,7 +154,7 @@ ref::File buildFile(const std::vector<Op> &ops, FileInfo *info) {
         params.push_back(pStrings(analogId, "LABELS", al));
         params.push_back(pStrings(analogId, "DESCRIPTIONS", adesc));
         params.push_back(pInt(analogId, "GEN_SCALE", 1));
-        std::vector<uint32_t> sc(nC, 0x3F800000u); std::vector<int> of(nC, 0);
+        std::vector<uint32_t> sc(nAL, 0x3F800000u); std::vector<int> of(nAL, 0);     // vendor files carry one gain / offset / unit per LABEL, which may be more or fewer than the channels in use
         params.push_back(pFloatArr(analogId, "SCALE", sc));
         params.push_back(pIntArr(analogId, "OFFSET", of));
         params.push_back(pStrings(analogId, "UNITS", aunits));
